@@ -210,7 +210,19 @@ class SemantivaOrchestrator(ABC):
             )
 
         # NOW instantiate nodes (this may emit 'instantiate' events)
-        nodes, node_defs = self._instantiate_nodes(resolved_spec, logger)
+        try:
+            nodes, node_defs = self._instantiate_nodes(resolved_spec, logger)
+        except BaseException as exc:
+            # pipeline_start is already on disk: close the stream properly
+            if trace is not None and run_id is not None:
+                try:
+                    trace.on_pipeline_end(
+                        run_id, {"status": "error", "error": str(exc)}
+                    )
+                finally:
+                    trace.flush()
+                    trace.close()
+            raise
         self._last_nodes = list(nodes)
 
         trace_active = (
@@ -328,7 +340,7 @@ class SemantivaOrchestrator(ABC):
                         )
                         trace_driver.on_node_event(ser)
 
-                except Exception as exc:
+                except BaseException as exc:
                     if trace_driver is not None:
                         post_ctx_view = self._context_snapshot(context)
                         context_delta = self._ensure_context_delta(
@@ -392,7 +404,7 @@ class SemantivaOrchestrator(ABC):
 
             if trace_driver is not None:
                 trace_driver.on_pipeline_end(run_token, {"status": "ok"})
-        except Exception as exc:
+        except BaseException as exc:
             if trace_driver is not None:
                 trace_driver.on_pipeline_end(
                     run_token, {"status": "error", "error": str(exc)}
